@@ -75,8 +75,8 @@ func (r *dpRun) apply(op dpOp) {
 	case "W":
 		r.id++
 		n := op.Len
-		if n < 4 {
-			n = 4
+		if n != 0 && n < 4 {
+			n = 4 // non-empty messages carry their id in the first four bytes
 		}
 		p := mkPayload(r.id, n)
 		_, err := r.c[op.E].Write(p)
@@ -116,6 +116,9 @@ func (r *dpRun) apply(op dpOp) {
 				res = "other:" + x.err.Error()
 			case x.n < 0 || x.n > len(buf):
 				ok = false // more bytes reported than the slice can hold
+				r.queued[op.E]--
+			case x.n == 0:
+				id, ok = -1, true // an empty message carries no id: matched by its length
 				r.queued[op.E]--
 			default:
 				id, ok = decode(buf[:x.n])
@@ -167,7 +170,7 @@ func TestVerifDPipeRandom(t *testing.T) {
 			switch c := rng.Intn(100); {
 			case c < 50:
 				if r.queued[1-e] < 900 {
-					r.apply(dpOp{Op: "W", E: e, Len: []int{4, 5, 9, 100, 1500, 9000}[rng.Intn(6)]})
+					r.apply(dpOp{Op: "W", E: e, Len: []int{0, 4, 5, 9, 100, 1500, 9000}[rng.Intn(7)]})
 				}
 			case c < 98:
 				r.apply(dpOp{Op: "R", E: e, N: []int{4, 5, 8, 2000, 10000}[rng.Intn(5)]})
